@@ -149,7 +149,10 @@ func probe(b, other *o4.Bridge, accepted []byte, rng *mrand.Rand, c *conn) bool 
 		}
 	}
 	// the plan: is a complete valid handshake going to be presented on this connection?
-	valid := request(b.ID, rng, 0, 77+rng.Intn(2000))
+	// padding: usually short, sometimes anywhere up to the maximum, sometimes the maximum itself (a request of exactly
+	// maxHandshakeLength = 8192 bytes: 32 representative + 8128 padding + 16 mark + 16 MAC)
+	validPad := []int{77 + rng.Intn(2000), 77 + rng.Intn(2000), 77 + rng.Intn(8052), 8128, 8127}[rng.Intn(5)]
+	valid := request(b.ID, rng, 0, validPad)
 	willBeValid, clean := false, true
 	for _, st := range c.Steps {
 		if st.A == "feed" {
@@ -286,6 +289,14 @@ func probe(b, other *o4.Bridge, accepted []byte, rng *mrand.Rand, c *conn) bool 
 				}
 			case "validplus":
 				extra := junk(rng, 1+rng.Intn(100))
+				if fed == 0 && len(valid) >= 8192 {
+					// the server reads at most 8192 bytes at a time: a maximal handshake delivered in one piece IS a complete
+					// valid handshake in its read, whatever follows in the segment.  "Trailing bytes in the read that completes
+					// the handshake" needs the handshake to arrive in (at least) two pieces then.
+					k := 1 + rng.Intn(len(valid)-1)
+					feed("partial", valid[:k], false)
+					fed = k
+				}
 				if fed >= 0 {
 					feed("validplus", append(append([]byte{}, valid[fed:]...), extra...), false)
 				} else {
@@ -341,6 +352,11 @@ func probe(b, other *o4.Bridge, accepted []byte, rng *mrand.Rand, c *conn) bool 
 					fed = -1
 				}
 				feed("badmac:"+st.V, data, false)
+				fed = -1
+			case "flood":
+				for i := 0; i < 3 && !returned; i++ {
+					feed("flood", junk(rng, 21846), false)
+				}
 				fed = -1
 			case "oversize":
 				n := 8192 - total + []int{0, 1, 100, 12000}[rng.Intn(4)]
